@@ -17,5 +17,8 @@ cp /repo/go.sum $P/harness/
 cd $P
 for p in 1 16; do for r in 1 2; do N=${N:-200} GOMAXPROCS=$p ./f.test -test.run TestFileDet -test.timeout 300s > fo.$p.$r 2>/dev/null; done; done
 md5sum fo.*.*
+for p in 1 4 16; do for r in 1 2; do N=${N:-200} GOMAXPROCS=$p ./f.test -test.run TestCoreDet -test.timeout 300s > co.$p.$r 2>/dev/null; done; done
+md5sum co.*.*
+echo "core runs where a client API call panicked (C08 defect on the unchanged tree): $(grep -c 'panics=1' co.1.1 || true)"
 echo "non-converged: $(grep -c NONCONV fo.1.1 || true)"
 rm -rf $P
